@@ -139,49 +139,69 @@ example : (demo11.map fun q => (q.2.pstop 1, q.2.pstop 2, q.2.pstop 3, q.2.stopp
   decide
 
 
-/-- Every thread that exists descends from the main thread through the registration lists. -/
-theorem C11_every_thread_descends_from_main {s : State} (h : sys.Reach s) (c : Nat) (hc0 : c ≠ 0)
-    (hpc : s.phase c ≠ .absent) : Desc s 0 c := desc_of_main h c hc0 hpc
+/-- Every thread that exists descends, through the registration lists, from the main thread or from an orphan (a thread
+created with `parent_thread=Null`, registered in `ALL` only). -/
+theorem C11_every_thread_has_a_root {s : State} (h : sys.Reach s) (c : Nat) (hc0 : c ≠ 0)
+    (hpc : s.phase c ≠ .absent) : Desc s 0 c ∨ ∃ o, s.orphan o = true ∧ (c = o ∨ Desc s o c) := desc_of_root h c hc0 hpc
 
-/-- MainThread.stop() leaves nothing behind: when its join phase is over, EVERY thread that exists — children of the
-main thread, their descendants through any number of generations, threads registered while the shutdown was under
-way — has stopped and is no longer in the registry `ALL`. -/
-theorem C11_main_stop_leaves_nothing_registered {s : State} (h : sys.Reach s) (cs raised : List Nat)
-    (hc : s.call 0 = .mJ cs [] raised) (c : Nat) (hc0 : c ≠ 0) (hpc : s.phase c ≠ .absent) :
-    s.stopped c = true ∧ s.inAll c = false := by
+/-- The sweep takes the whole registry: the step that removes the main thread from `ALL` snapshots everything that is
+left, and a stop() of each of those threads is scheduled. -/
+theorem C11_sweep_snapshot_is_the_registry {s s' : State} {l : Label} (h : sys.Reach s) (cs raised : List Nat)
+    (hc : s.call 0 = .m2 cs raised) (hs : step s 0 = some (s', l)) :
+    ∃ res, s'.call 0 = .mRS cs raised res (res.map .visit) ∧ ∀ u, u ≠ 0 → s.inAll u = true → u ∈ res := by
+  have hr := (reach_invR h).2
+  unfold step at hs; rw [hr.R5] at hs; simp only [hc] at hs; cases hs
+  refine ⟨_, by simp [upd], fun u hu hin => (List.mem_erase_of_ne hu).mpr (hr.R8 u hin)⟩
+
+/-- MainThread.stop() leaves nothing behind: when the join of the swept threads is over, every thread that was in the
+registry `ALL` at the snapshot has stopped and is out of the registry, and so has every thread that descends from the main
+thread (children, their descendants through any number of generations, threads registered while the shutdown was under way);
+what is reported (`C12`) comes after all of them have been stopped — a failure in one does not stop the sweep. -/
+theorem C11_main_stop_leaves_nothing_registered {s : State} (h : sys.Reach s) (cs raised res raised2 : List Nat)
+    (hc : s.call 0 = .mRJ cs raised res [] raised2) :
+    (∀ u, u ∈ res → s.stopped u = true ∧ (u ≠ 0 → s.inAll u = false)) ∧
+    (∀ c, Desc s 0 c → s.stopped c = true ∧ (c ≠ 0 → s.inAll c = false)) := by
   obtain ⟨hi, hr⟩ := reach_invR h
-  have top : ∀ c1, c1 ∈ s.everChild 0 → s.stopped c1 = true := by
-    intro c1 h1
-    rcases hi.ever 0 c1 h1 with h2 | h2
-    · have : c1 ∈ cs := hr.R4 cs (by rw [hc]; rfl) c1 h2
-      exact (C11_main_stop_waits_for_all h cs raised hc c1 c1 this).1
-    · exact h2
-  have hst : s.stopped c = true := by
-    cases C11_every_thread_descends_from_main h c hc0 hpc with
-    | child h1 => exact top c h1
-    | step h1 hd => exact C10_descendants_first h _ _ (top _ h1) hd
-  refine ⟨hst, hr.R1 c hc0 ?_⟩
-  have := (hi.stP c).mp hst
-  cases hp : s.phase c <;> simp_all [Phase.isStopped, Phase.unregistered]
+  have unreg : ∀ c, s.stopped c = true → c ≠ 0 → s.inAll c = false := by
+    intro c hst hc0
+    refine hr.R1 c hc0 ?_
+    have := (hi.stP c).mp hst
+    cases hp : s.phase c <;> simp_all [Phase.isStopped, Phase.unregistered]
+  constructor
+  · intro u hu
+    have := hi.jtop 0 res [] none raised2 (by simp [hc, Call.jwork]) u hu
+    have hst : s.stopped u = true := by simpa [tillOn] using this
+    exact ⟨hst, unreg u hst⟩
+  · intro c hd
+    have top : ∀ c1, c1 ∈ s.everChild 0 → s.stopped c1 = true := hr.R0 (by rw [hc]; rfl)
+    have hst : s.stopped c = true := by
+      cases hd with
+      | child h1 => exact top c h1
+      | step h1 hd' => exact C10_descendants_first h _ _ (top _ h1) hd'
+    exact ⟨hst, unreg c hst⟩
 
-/-- non-vacuity: main spawns t1, t1 spawns t2; MainThread.stop() is called while both run; t2 returns, t1 fails; at the end of
-the join phase both have stopped, neither is registered any more, and the failure is on record -/
+/-- non-vacuity: main spawns t1, t1 starts the orphan t2; MainThread.stop() is called while both run; t1 fails; the join
+phase ends, the registry sweep finds t2, stops it and joins it; at the end both have stopped, neither is registered any
+more, and the failure of t1 is on record (the call returns `allRaised`) -/
 def demoMainStop : Option State := do
   let s ← call init 0 .spawn
   let s := settle 10 s 0
   let s := settle 10 s 1
-  let s ← call s 1 .spawn
+  let s ← call s 1 .spawnOrphan
   let s := settle 10 s 1
   let s := settle 10 s 2
   let s ← call s 0 .mainStop
   let s := settle 40 s 0            -- please_stop, snapshot, stop the children, block joining t1
-  let s ← call s 2 (.finish (.ok 1))
-  let s := settle 40 s 2
   let s ← call s 1 (.finish .fail)
   let s := settle 40 s 1
-  pure (settle 7 s 0)
+  let s := settle 40 s 0            -- join phase over; sweep: snapshot [t2], stop(t2), block joining t2
+  let s ← call s 2 (.finish (.ok 1))
+  let s := settle 40 s 2
+  pure (settle 3 s 0)
 
-example : (demoMainStop.map fun s => (s.call 0, s.stopped 1, s.stopped 2, s.inAll 1, s.inAll 2)) =
-    some (.mJ [1] [] [1], true, true, false, false) := by decide
+example : (demoMainStop.map fun s => (s.call 0, s.orphan 2, s.pstop 2)) = some (.mRJ [1] [1] [2] [] [], true, true) := by decide
+example : (demoMainStop.map fun s => (s.stopped 1, s.stopped 2, s.inAll 1, s.inAll 2)) = some (true, true, false, false) := by decide
+
+example : (demoMainStop.map fun s => (settle 1 s 0).call 0) = some (.idle .allRaised) := by decide
 
 end MoThreads.ThreadTree
